@@ -312,6 +312,22 @@ let run_case () =
      let m = ref m0 in
      List.iteri (fun i o ->
          let (m1, r) = step fnum (=) tape_rng !m o in
+         (* tolerance mode: report how decisive each arg-max is, so that the harness can accept a
+            different arm when the two best expectations agree up to rounding *)
+         (match o with
+          | Predict (cx, orc) when not !exact_params ->
+              (try
+                 let (_, e) = step fnum (=) tape_rng !m (PredictExp (cx, orc)) in
+                 let margin d =
+                   let vs = List.filter_map (fun (_, v) -> v) d in
+                   let sorted = List.sort (fun a b -> compare b a) vs in
+                   (match sorted with
+                    | a :: b :: _ -> (a -. b) /. (Float.max 1.0 (Float.abs a))
+                    | _ -> infinity) in
+                 let rows = (match e with OExp d -> [d] | OExps l -> l | _ -> []) in
+                 Printf.printf "S %s %d margins %s\n" cid i (String.concat " " (List.map (fun d -> Printf.sprintf "%.3e" (margin d)) rows))
+               with _ -> ())
+          | _ -> ());
          m := m1;
          print_out cid i r;
          print_state cid i m1) ops
